@@ -190,7 +190,8 @@ def scenario(family, ntp, first_tp=0, parallel=None, n_cpu=None):
         kw['hotspot'] = HOTSPOT
     elif family == 'tables':
         setup.update({
-            'axial_plane': [0.033, 0.071],
+            # the third plane lies 0.4 um above a power-cell boundary (a sliver step, legitimate)
+            'axial_plane': [0.033, 0.071, 0.0500004],
             'Dump': {'all': True, 'interval': 0.02},
             'AssemblyTables': {
                 'cool_tab': {'type': 'coolant_subchannel', 'assemblies': [1],
